@@ -161,6 +161,7 @@ type aggregate struct {
 	Inconcl     int               `json:"inconclusive"`
 	Violations  int               `json:"violations"`
 	KnownHits   int               `json:"known_hits"`
+	TiesRuns    int               `json:"ties_profile_runs"`
 	NonTrivial  int               `json:"nontrivial"`
 	Steps       uint64            `json:"steps"`
 	SimNs       int64             `json:"sim_ns"`
@@ -613,7 +614,14 @@ func doSearch(t *testing.T) {
 			break
 		}
 		// determinism re-check: same seed again must give the same log hash
-		if *fRecheck > 0 && i%*fRecheck == *fRecheck-1 && rec.Verdict != "harness-panic" {
+		ties := false
+		if th, ok := h.(interface{ Ties(cfg any) bool }); ok {
+			ties = th.Ties(cfg)
+		}
+		if ties {
+			agg.TiesRuns++
+		}
+		if *fRecheck > 0 && i%*fRecheck == *fRecheck-1 && rec.Verdict != "harness-panic" && !ties {
 			cfg2, simCfg2 := h.Gen(prop, tier, simrt.NewRng(seed))
 			rec2 := execute(t, h, prop, tier, seed, cfg2, simCfg2, simrt.NewSearch(splitmix(seed^0xabcdef)), false)
 			agg.Rechecked++
